@@ -827,6 +827,10 @@ func (h *H) Run(cc core.Cfg, sim *simrt.Sim) *core.Outcome {
 			// maintenance unlocks the job before it removes it from the table; a notification that had looked the job up
 			// resumes it in between (one decrement of the done counter), then the deletion decrements it again
 			sig = "died/job-resumed-while-being-deleted/done-jobs-counter-negative"
+		case strings.Contains(d, "done jobs counter is less than zero") && strings.Contains(d, "tryResumeJobAndUnlock"):
+			// the same window with the two decrements in the other order: the deletion has already taken the job out of
+			// the table and decremented, then the notification that had looked the job up resumes it (isDone is still set)
+			sig = "died/job-resumed-while-being-deleted/done-jobs-counter-negative/at-the-resume"
 		case strings.Contains(d, "can't load offsets"):
 			sig = "died/cannot-load-offsets"
 		}
